@@ -47,7 +47,7 @@ func c09PwLen() int {
 }
 
 func HarnessC09_NonInterference() {
-	vfLoopBound(600)
+	vfLoopBound(4000)
 	vfFixedMapOrder() // the order in which capability masks are written does not involve the secrets
 	n1, n2 := vfPick("pw1len", 0, c09PwLen()), vfPick("pw2len", 0, c09PwLen())
 	pw1, pw2 := vfString("pw1", n1), vfString("pw2", n2)
@@ -62,8 +62,11 @@ func HarnessC09_NonInterference() {
 	if len(a.writes) == len(b.writes) {
 		for i := range a.writes {
 			vfAssert(len(a.writes[i]) == len(b.writes[i]), "same number of bytes written for any two passwords")
-			k := vfInt("k", 0, 600)
-			if k < len(a.writes[i]) && k < len(b.writes[i]) {
+			n := len(a.writes[i])
+			if len(b.writes[i]) < n {
+				n = len(b.writes[i])
+			}
+			for k := 0; k < n; k++ {
 				vfAssert(a.writes[i][k] == b.writes[i][k], "every byte written is independent of the passwords")
 			}
 		}
